@@ -472,7 +472,7 @@ theorem stepCore_weekPos {s s' : St} {op : Op} {o : Out} (hP : PosInv s) (hI : W
   case setFactors x =>
     simp only [setFactors, Option.bind_eq_bind, Option.bind_eq_some_iff, req_eq_some,
       Option.pure_def, Option.some.injEq, Prod.mk.injEq] at h
-    obtain ⟨_, _, c, _, rfl, _⟩ := h
+    obtain ⟨_, _, _, _, c, _, rfl, _⟩ := h
     exact hI.of_wv rfl
   case collectUndistributed =>
     simp only [collectUndistributed, Option.bind_eq_bind, Option.bind_eq_some_iff, req_eq_some] at h
